@@ -68,3 +68,27 @@ package staking
 //@   requires ctx != nil && state != nil && allow != nil
 //@   ensures err == nil ==> conserved() && stakingState.SharesConsistentWithOld()
 //@   ensures err != nil && !unavail(err) ==> noWrites()
+
+// ---- fee disbursement (BeginBlock: disburseFeesVQ, EndBlock: disburseFeesP) ----
+
+//@ func Application.disburseFeesVQ
+//@   props C05
+//@   requires app != nil && ctx != nil && stakeState != nil
+//@   requires stakingState.GCommon >= 0 && stakingState.GLastFees >= 0
+//@   ensures err == nil ==> stakingState.GAcctSum + stakingState.GCommon == old(stakingState.GAcctSum + stakingState.GCommon) + old(stakingState.GLastFees)
+//@   ensures stakingState.GLastFees == old(stakingState.GLastFees) && stakingState.GSupply == old(stakingState.GSupply) && stakingState.GGovDep == old(stakingState.GGovDep)
+//@   ensures err == nil ==> stakingState.SharesConsistentWithOld()
+//@   loop 1 invariant stakingState.GAcctSum + stakingState.GCommon + quantity.Val(lastBlockFees) == old(stakingState.GAcctSum + stakingState.GCommon) + old(stakingState.GLastFees)
+//@   loop 1 invariant stakingState.GLastFees == old(stakingState.GLastFees) && stakingState.GSupply == old(stakingState.GSupply) && stakingState.GGovDep == old(stakingState.GGovDep) && stakingState.GCommon == old(stakingState.GCommon)
+//@   loop 1 invariant stakingState.SharesConsistentWithOld() && lastBlockFees != nil && quantity.Val(lastBlockFees) >= 0 && shareVote != nil && quantity.Val(shareVote) > 0
+//@   note the persisted fees of the previous block are paid out in full: whatever is not paid to voters / next proposer is swept into the common pool; the stored LastBlockFees record itself is overwritten by disburseFeesP at the end of the same block
+
+//@ func Application.disburseFeesP
+//@   props C05
+//@   requires app != nil && ctx != nil && stakeState != nil && totalFees != nil && quantity.Val(totalFees) >= 0
+//@   requires stakingState.GCommon >= 0
+//@   ensures err == nil ==> stakingState.GAcctSum + stakingState.GCommon + stakingState.GLastFees == old(stakingState.GAcctSum + stakingState.GCommon) + old(quantity.Val(totalFees))
+//@   ensures err == nil ==> quantity.Val(totalFees) == 0
+//@   ensures stakingState.GSupply == old(stakingState.GSupply) && stakingState.GGovDep == old(stakingState.GGovDep)
+//@   ensures err == nil ==> stakingState.SharesConsistentWithOld()
+//@   note the block's fees (held by the fee accumulator, outside the ledger) enter the ledger exactly once: proposer share + common pool remainder + persisted share for the next block's voters
